@@ -81,6 +81,7 @@ pub struct Monitors {
     ping_timeout_max: bool,
     pub stronger_slow_start_hits: usize,
     blind: bool,
+    inbound_unframed: bool,
 }
 
 fn sig(pairs: &[(&str, String)]) -> BTreeMap<String, String> {
@@ -99,7 +100,7 @@ impl Monitors {
             policy: case.engine.policy, max_retries: case.engine.max_retries, one_at_a_time: case.engine.one_at_a_time, conn: HashMap::new(),
             inbound_qos2: HashSet::new(), inbound_qos2_unknown: HashSet::new(), interrupted_set: HashSet::new(), id_holders: HashMap::new(), min_unresolved: 0, prev: None, spin_run: 0, successes_since_reset: 0,
             audit_pending: None, connect_spec: case.engine.connect.clone(), ping_timeout_ms: case.engine.ping_timeout_ms, ping_timeout_max: case.engine.ping_timeout_max,
-            stronger_slow_start_hits: 0, blind: false,
+            stronger_slow_start_hits: 0, blind: false, inbound_unframed: false,
         }
     }
 
@@ -124,6 +125,19 @@ impl Monitors {
             if self.honest { self.viol("HARNESS", "HARNESS.bookkeeping", sig(&[]), rec.index, "an honest broker's CONNACK could not be decoded by the reference decoder".into()); }
             self.blind = true;
             self.count("harness.blind_after_opaque_connack");
+        }
+        if !self.blind {
+            if let Some(c) = world.current {
+                if world.conns[c].inbound_decoder.error.is_some() && world.conns[c].first_error.is_none() {
+                    // the engine keeps accepting a server stream that the strict reference decoder can
+                    // no longer frame (mutated bytes it is lenient about): acknowledgements can no
+                    // longer be attributed by the monitors
+                    if self.honest { self.viol("HARNESS", "HARNESS.bookkeeping", sig(&[]), rec.index, format!("an honest broker's stream could not be framed: {:?}", world.conns[c].inbound_decoder.error)); }
+                    self.blind = true;
+                    self.inbound_unframed = true;
+                    self.count("harness.blind_after_unframed_inbound");
+                }
+            }
         }
         if self.blind {
             self.c01(world, rec, delta, ctx);
@@ -232,8 +246,9 @@ impl Monitors {
                     let bad = |why: &str| -> Option<String> { Some(why.to_string()) };
                     let conn = cur;
                     let mut problem: Option<String> = None;
+                    let unframed = self.inbound_unframed;
                     let inbound_has = |kind: &str, id: u16, token: &Option<String>| -> bool {
-                        delta.new_inbound.iter().any(|(c, ii)| {
+                        unframed || delta.new_inbound.iter().any(|(c, ii)| {
                             let p = &world.conns[*c].inbound[*ii].packet;
                             match (kind, p) {
                                 ("PUBACK", rf::Packet::Puback(a)) | ("PUBREC", rf::Packet::Pubrec(a)) | ("PUBCOMP", rf::Packet::Pubcomp(a)) => a.packet_id == id && a.reason_string == *token,
@@ -411,7 +426,7 @@ impl Monitors {
                     if same_conn_same_kind > 1 {
                         self.viol("C04", "C04.R3-repeated-in-connection", sig(&[("packet", "PUBLISH".into())]), rec.index, format!("op {}: PUBLISH twice in connection {}", tag, c));
                     }
-                    if op.pubrec_received {
+                    if op.pubrec_received && !op.pubrec_uncertain {
                         self.viol("C04", "C04.R4-publish-after-pubrec", sig(&[("dup", app.dup.to_string())]), rec.index, format!("op {}: PUBLISH sent again after PUBREC", tag));
                     }
                     let prior_pub: Vec<&&Appearance> = prior_live.iter().filter(|a| a.kind == WireKind::Publish && a.conn < c).collect();
@@ -447,7 +462,7 @@ impl Monitors {
                         let _ = pos;
                         self.viol("C04", "C04.R3-repeated-in-connection", sig(&[("packet", "PUBREL".into()), ("resumed", (prior_live.iter().any(|a| a.conn < c)).to_string())]), rec.index, format!("op {}: PUBREL twice in connection {}", tag, c));
                     }
-                    if !op.pubrec_received {
+                    if !op.pubrec_received && !op.pubrec_uncertain {
                         self.viol("C04", "C04.R6-pubrel-without-pubrec", sig(&[]), rec.index, format!("op {}: PUBREL sent but no successful PUBREC was delivered", tag));
                     }
                     if prior_live.iter().any(|a| a.conn < c) { self.count("c04.pubrel_resumptions"); }
